@@ -3,8 +3,10 @@
 Props module) from the directory layout. Idempotent; run by setup and by ./check."""
 import os, re, sys
 root = os.path.dirname(os.path.abspath(__file__))
+# only properties whose spec/Cxx.json exists are wired in (work in progress stays out of the build)
 ids = sorted(d for d in os.listdir(os.path.join(root, "SpecterModel"))
-             if re.fullmatch(r"C\d+", d) and os.path.isdir(os.path.join(root, "SpecterModel", d)))
+             if re.fullmatch(r"C\d+", d) and os.path.isdir(os.path.join(root, "SpecterModel", d))
+             and os.path.exists(os.path.join(root, "..", "spec", d + ".json")))
 drv = [i for i in ids if os.path.exists(os.path.join(root, "SpecterModel", i, "Drv.lean"))]
 main = "".join(f"import SpecterModel.{i}.Drv\n" for i in drv)
 main += "\ndef main (args : List String) : IO UInt32 := do\n  match args with\n"
